@@ -328,6 +328,24 @@ struct ArrImpl : IArr {
 		cmp_concat(r1, {A}, 1); cmp_concat(r2, {A, B}, 2); cmp_concat(r3, {B, A, B}, 3);
 		cmp_concat(r4, {A, B, C, A}, 4); cmp_concat(r5, {C, A, B, C, B}, 5);
 	}
+	// array_concat with ZERO-LENGTH pieces (frg::array<T,0> and std::array<T,0>) in first / middle / last position,
+	// several of them, only empties, and std::array arguments mixed with frg::array ones
+	void concat_empty(const std::vector<uint64_t> &v) {
+		frg::array<T, 2> b{}; std::array<T, 2> sb{}; fill<2>(b, sb, v, 0, 0x55);
+		frg::array<T, 3> c{}; std::array<T, 3> sc{}; fill<3>(c, sc, v, 2, 0x33);   // sc doubles as a std::array ARGUMENT
+		frg::array<T, 0> e0{}; std::array<T, 0> s0{};
+		auto A = shows(s.begin(), s.end()), B = shows(sb.begin(), sb.end()), C = shows(sc.begin(), sc.end());
+		std::vector<std::string> E;
+		cmp_concat(frg::array_concat<T>(e0, *a), {E, A}, 2);
+		cmp_concat(frg::array_concat<T>(*a, e0, b), {A, E, B}, 3);
+		cmp_concat(frg::array_concat<T>(*a, b, e0), {A, B, E}, 3);
+		cmp_concat(frg::array_concat<T>(e0, e0, *a, e0, b), {E, E, A, E, B}, 5);
+		cmp_concat(frg::array_concat<T>(e0), {E}, 1);
+		cmp_concat(frg::array_concat<T>(e0, s0, e0), {E, E, E}, 3);
+		cmp_concat(frg::array_concat<T>(s0, *a, sc, e0, b), {E, A, C, E, B}, 5);
+		cmp_concat(frg::array_concat<T>(*a, s0, sc), {A, E, C}, 3);
+		cmp_concat(frg::array_concat<T>(sc, *a), {C, A}, 2);
+	}
 	void eq_against(const FA &b, const SA &sb, const char *what) {
 		bool x = (*a == b), y = (s == sb), nx = (*a != b), ny = (s != sb), rx = (b == *a), ry = (sb == s);
 		printf("b %d %d\n", (int)x, (int)nx);
@@ -371,9 +389,40 @@ struct ArrImpl : IArr {
 			// (fewer instantiations for the non-integer kinds: compile time)
 			if constexpr (K::full) { if(m == 1) concat_with<1>(v); else if(m == 2) concat_with<2>(v); else if(m == 3) concat_with<3>(v); else concat_with<5>(v); }
 			else { if(m == 2) concat_with<2>(v); else concat_with<5>(v); } }
+		else if(o == "concatz") { auto v = nums(t, 1); while(v.size() < 5) v.push_back(0); concat_empty(v); }
 		else printf("?\n");
 	}
 };
+
+// constant evaluation of array_concat (incl. empty pieces); the results are constexpr objects, i.e. computed by
+// the compiler, and are compared at run time so that a wrong one yields an oracle line with a failing input
+// (comp/bits/constexpr_check.cpp holds the same expressions under static_assert, compiled by check.py)
+namespace cx {
+	constexpr frg::array<int, 2> a{1, 2};
+	constexpr frg::array<int, 3> b{3, 4, 5};
+	constexpr frg::array<int, 0> e{};
+	constexpr std::array<int, 0> s0{};
+	constexpr std::array<int, 2> s2{6, 7};
+	constexpr auto r1 = frg::array_concat<int>(e, a, b);
+	constexpr auto r2 = frg::array_concat<int>(a, e, b);
+	constexpr auto r3 = frg::array_concat<int>(a, b, e);
+	constexpr auto r4 = frg::array_concat<int>(e, s0, a, e, s2, s0, b);
+	constexpr auto r5 = frg::array_concat<int>(e, s0);
+	constexpr auto r6 = frg::array_concat<int>(a, b, s2, a, b);
+}
+template <class R> static void cx_show(const R &r, std::initializer_list<int> want, const char *what) {
+	std::vector<int> got(r.begin(), r.end()), w(want);
+	printf("l"); for(int x : got) printf(" %d", x); printf("\n");
+	if(got != w) oracle("array-ref", "constant-evaluated array_concat<int>(%s) is wrong (%zu elements)", what, got.size());
+}
+static void cconcat_case() {
+	cx_show(cx::r1, {1, 2, 3, 4, 5}, "[], a, b");
+	cx_show(cx::r2, {1, 2, 3, 4, 5}, "a, [], b");
+	cx_show(cx::r3, {1, 2, 3, 4, 5}, "a, b, []");
+	cx_show(cx::r4, {1, 2, 6, 7, 3, 4, 5}, "[], std[], a, [], std{6,7}, std[], b");
+	cx_show(cx::r5, {}, "[], std[]");
+	cx_show(cx::r6, {1, 2, 3, 4, 5, 6, 7, 1, 2, 3, 4, 5}, "a, b, std{6,7}, a, b");
+}
 
 template <class K>
 static IArr *make_arr(size_t n) {
@@ -401,6 +450,7 @@ static IArr *make_arr(size_t n) {
 static void array_case(const vh::Lines &ls) {
 	auto t0 = vh::split(ls[0]);
 	const std::string &kind = t0[1];
+	if(kind == "cconcat") { cconcat_case(); return; }
 	size_t n = vh::u64(t0[2]);
 	auto v = nums(t0, 3);
 	IArr *a = nullptr;
